@@ -458,6 +458,10 @@ ARGS_LOOP:
 		// handle commands and subcommands
 		for k, v := range currentProgramNode.ChildCommands {
 			if k == iterator.Value() {
+				// Carry the text and the unknown options seen so far down to the command,
+				// the command's node is the one that gets returned.
+				v.ChildText = append(v.ChildText, currentProgramNode.ChildText...)
+				v.UnknownOptions = append(v.UnknownOptions, currentProgramNode.UnknownOptions...)
 				currentProgramNode = v
 				continue ARGS_LOOP
 			}
